@@ -3,6 +3,12 @@ h_rangesplit (real code, same scope + seeded random 62-bit values) judged by Tra
 import vtlib
 from checks import datacheck
 
+META = dict(
+   text='TLC exhausts the transcribed init()/all_parts()/aligned_parts() step machine against the declarative tiling reference for every (geometry, offset, length) in a small scope (fixed 1..5, power-of-two 1..8, all key-point sets over 0..5; thorough: larger); the real range_split classes are executed on the same scope plus seeded random offsets up to 2^62 and every recorded case is judged by the reference operators in a trace specification.',
+   note='TLC result holds for the stated scope; larger values only through seeded random cases. offset+length overflow near 2^64 is outside the statement. Harness is compiled from /repo headers with ASan/UBSan; a sanitizer report is a Fatal event that the specification cannot explain.',
+   technique='TLA+ transcription + TLC exhaustive small-scope equivalence with reference; trace validation of real outputs (TLC) per case',
+   design='3/C15')
+
 def run(ctx):
     t = ctx.tier
     r = ctx.mc('MC_RangeSplit', f'MC_RangeSplit_{t}.cfg', timeout=900)
